@@ -422,6 +422,9 @@ fn corpus(sink: &mut Sink) {
         GTree::leaf(GValue::Comment("x".into())),
         GTree::leaf(GValue::PI(18, None)),
         GTree::leaf(GValue::PI(18, Some("".into()))),
+        // C13_xpath_no_text_merge: a comment splitting a text node; deep_equal_xpath against
+        // `<a>xy</a>` is false, against `<a>x y</a>` (two text nodes) true: nothing is merged
+        e(2, vec![t("x"), GTree::leaf(GValue::Comment("c".into())), t("y")]),
     ];
     // smallest inputs of the two defects of DESIGN.md section 8 row 15 (fixed in /repo by a361fb0
     // and 3b5a0f1) first, so that a regression reports the minimal replay
